@@ -90,6 +90,7 @@ def sc_yield(V, nmoves=2, cycles=2):
     iv, mn, w = {}, {}, {}
     for nm in names:
         mc.add_move(BareMove(), BareCriteria(), name=nm)
+    for nm in names:
         iv[nm] = V.int(f"int_{nm}", 1, 3)
         mn[nm] = int(V.int(f"min_{nm}", 0, 2))  # concrete per path (numpy needs integer repeat counts)
         w[nm] = V.real(f"w_{nm}", lo=0, hi=10)
@@ -203,6 +204,7 @@ def _plan(tier):
         P.append(("yield", dict(nmoves=3, cycles=3), R))
         P.append(("yield", dict(nmoves=2, cycles=4), R))
         P.append(("yield", dict(nmoves=3, cycles=2), R))
+    P.append(("yield", dict(nmoves=2, cycles=2), (), "free-slot-probabilities-proportional-to-due-weights"))
     return P
 
 
